@@ -11,6 +11,10 @@
                                 REQUESTED from the sender), metadata written, then — if
                                 something was at p — RemoveAll(p) when directory-ness differs,
                                 and rename over p.  modify of a missing path = error.
+   A device or fifo entry WITH a Linkname is a further name of an existing inode like a regular
+   one: the device / fifo case of the switch applies to an empty Linkname only ([is_hardlink] =
+   neither directory nor symbolic link, Linkname non-empty; the walker reports a Linkname for
+   every non-directory with more than one name).
    Re-linking a path that already is a link to the inode of dest/Linkname leaves the tree
    as it is (since /repo 19c7373 the temporary link is removed instead of renamed): here the
    entry keeps the inode class of its target, which is the one it had.
@@ -42,9 +46,10 @@
      regular file at the position of its HandleChange call; the real one is emitted by a
      goroutine when the content has arrived (any later position) — see
      Proofs/AbsDestP.v, replay_delay, for why the position does not matter;
-   * a hard-link entry that names a symbolic link, a device or a fifo (os.Link succeeds and
-     gives that special inode a second name) is kept with the stat as sent; [links_ok]
-     excludes it, no generator produces it;
+   * a hard-link entry that names a symbolic link (os.Link succeeds and gives the link itself
+     a second name) is kept with the stat as sent; [links_ok] excludes it, no generator
+     produces it (the walker reports a second name of a symbolic link as a symbolic link whose
+     target is the first name — not a hard-link entry at all);
    * a default-branch entry whose mode has ModeSocket/ModeIrregular/lone ModeCharDevice
      would make receiver.asyncDataFunc fail ("invalid file request"); not modelled;
    * the directory-mtime pass of DiskWriter.Wait is not modelled (directory mtime and size
@@ -79,7 +84,13 @@ Definition is_special (st : stat) : bool :=
 (* reaches the last two cases of the switch: hard link or regular file *)
 Definition is_reg (st : stat) : bool :=
   negb (st_is_dir st) && negb (is_special st) && negb (mode_is_symlink (st_mode st)).
-Definition is_hardlink (st : stat) : bool := is_reg st && negb (is_empty (st_linkname st)).
+(* an inode that can have several names in a listing: anything but a directory or a symbolic link
+   (for a symbolic link Linkname is its target) *)
+Definition is_node (st : stat) : bool := negb (st_is_dir st) && negb (mode_is_symlink (st_mode st)).
+(* a FURTHER NAME of such an inode — regular file, device or fifo alike: the device / fifo case of
+   HandleChange applies to an empty Linkname only, every other non-directory, non-symlink entry
+   with a Linkname reaches `case statCopy.Linkname != ""` (os.Link) *)
+Definition is_hardlink (st : stat) : bool := is_node st && negb (is_empty (st_linkname st)).
 (* default case: regular file whose content is requested *)
 Definition wants_content (st : stat) : bool := is_reg st && is_empty (st_linkname st).
 
@@ -103,7 +114,7 @@ Definition ino_meta_eqb (t s : stat) : bool :=
 (* the stat a NEW NAME of the inode shown as [t] presents when it was announced as [st]: the
    inode's metadata under the path (and Linkname) of the announcement *)
 Definition link_stat (t st : stat) : stat :=
-  if is_reg t then
+  if is_node t then
     {| st_path := st_path st; st_mode := st_mode t; st_uid := st_uid t; st_gid := st_gid t;
        st_size := st_size t; st_mtime := st_mtime t; st_linkname := st_linkname st;
        st_devmajor := st_devmajor t; st_devminor := st_devminor t; st_xattrs := st_xattrs t |}
@@ -301,11 +312,13 @@ Definition recv_honest_by (eqb : stat -> stat -> bool) (m : rmode) (d : differ) 
 Definition recv_honest := recv_honest_by stat_eqb.
 
 (* ---------------------------------------------------------------- hypotheses of the theorems *)
-(* a hard-link entry names an earlier regular entry of the same listing with the same bytes *)
+(* a hard-link entry names an earlier entry of the same listing that is neither a directory nor a
+   symbolic link (a regular one if the link entry says "regular"), with the same bytes *)
 Definition links_ok (B : list entry) : Prop :=
   forall sb bb, In (sb, bb) B -> is_hardlink sb = true ->
   exists st bt, In (st, bt) B /\ st_path st = st_linkname sb /\
-                compare_path (st_path st) (st_path sb) = Lt /\ is_reg st = true /\ bt = bb.
+                compare_path (st_path st) (st_path sb) = Lt /\ is_node st = true /\
+                (is_reg sb = true -> is_reg st = true) /\ bt = bb.
 
 (* honest sender: a hard-link entry carries the metadata of the entry it names (all names of
    an inode are listed with the same metadata: what every walk produces) *)
@@ -331,7 +344,8 @@ Definition links_ok_b (B : list entry) : bool :=
   forallb (fun e => negb (is_hardlink (fst e)) ||
      existsb (fun t => bytes_eqb (st_path (fst t)) (st_linkname (fst e))
                        && path_ltb (st_path (fst t)) (st_path (fst e))
-                       && is_reg (fst t) && bytes_eqb (snd t) (snd e)) B) B.
+                       && is_node (fst t) && (negb (is_reg (fst e)) || is_reg (fst t))
+                       && bytes_eqb (snd t) (snd e)) B) B.
 Definition links_meta_b (B : list entry) : bool :=
   forallb (fun e => negb (is_hardlink (fst e)) ||
      forallb (fun t => negb (bytes_eqb (st_path (fst t)) (st_linkname (fst e)))
